@@ -119,6 +119,17 @@ c('NaiveDate::checked_add_days', U, requires="dwf(self)", ensures=date_move("dn(
 c('NaiveDate::checked_sub_days', U, requires="dwf(self)", ensures=date_move("dn(self) - days.0 as int"))
 c('NaiveDate::checked_add_signed', U, requires="dwf(self), td_inv(rhs)", ensures=date_move("dn(self) + trunc_div(td_ns(rhs), 86_400_000_000_000)"))
 c('NaiveDate::checked_sub_signed', U, requires="dwf(self), td_inv(rhs)", ensures=date_move("dn(self) - trunc_div(td_ns(rhs), 86_400_000_000_000)"))
+def date_op(expr, pre=''):
+    return dict(requires="dwf(self)%s, %s" % (pre, RANGE.format(e=expr)), ensures="dwf(r), dn(r) == " + expr)
+c('NaiveDate::Add__add', U, **date_op("dn(self) + trunc_div(td_ns(rhs), 86_400_000_000_000)", ", td_inv(rhs)"))
+c('NaiveDate::Sub__sub', U, **date_op("dn(self) - trunc_div(td_ns(rhs), 86_400_000_000_000)", ", td_inv(rhs)"))
+c('NaiveDate::Add_Days__add', U, **date_op("dn(self) + days.0 as int"))
+c('NaiveDate::Sub_Days__sub', U, **date_op("dn(self) - days.0 as int"))
+c('NaiveDate::Sub_NaiveDate__sub', U, requires="dwf(self), dwf(rhs)", ensures="td_inv(r), td_ns(r) == (dn(self) - dn(rhs)) * 86_400_000_000_000")
+c('NaiveDate::AddAssign__add_assign', U, requires="dwf(*old(self)), td_inv(rhs), " + RANGE.format(e="dn(*old(self)) + trunc_div(td_ns(rhs), 86_400_000_000_000)"),
+  ensures="dwf(*final(self)), dn(*final(self)) == dn(*old(self)) + trunc_div(td_ns(rhs), 86_400_000_000_000)")
+c('NaiveDate::SubAssign__sub_assign', U, requires="dwf(*old(self)), td_inv(rhs), " + RANGE.format(e="dn(*old(self)) - trunc_div(td_ns(rhs), 86_400_000_000_000)"),
+  ensures="dwf(*final(self)), dn(*final(self)) == dn(*old(self)) - trunc_div(td_ns(rhs), 86_400_000_000_000)")
 c('NaiveDate::signed_duration_since', U, requires="dwf(self), dwf(rhs)",
   ensures="td_inv(r), td_ns(r) == (dn(self) - dn(rhs)) * 86_400_000_000_000")
 
@@ -165,6 +176,8 @@ c('NaiveTime::overflowing_sub_offset', U, requires="twf(*self), offwf(offset)",
   ensures="twf(r.0), r.0.frac == self.frac, -1 <= r.1 <= 1, r.0.secs as int + r.1 as int * 86400 == self.secs as int - offset.local_minus_utc as int")
 c('NaiveTime::Add__add', U, requires="twf(self), td_inv(rhs)", ensures="twf(r), (r.secs as int, r.frac as int) == add_time(self, td_ns(rhs))")
 c('NaiveTime::Sub__sub', U, requires="twf(self), td_inv(rhs)", ensures="twf(r), (r.secs as int, r.frac as int) == add_time(self, -td_ns(rhs))")
+c('NaiveTime::AddAssign__add_assign', U, requires="twf(*old(self)), td_inv(rhs)", ensures="twf(*final(self)), (final(self).secs as int, final(self).frac as int) == add_time(*old(self), td_ns(rhs))")
+c('NaiveTime::SubAssign__sub_assign', U, requires="twf(*old(self)), td_inv(rhs)", ensures="twf(*final(self)), (final(self).secs as int, final(self).frac as int) == add_time(*old(self), -td_ns(rhs))")
 c('NaiveTime::Sub_NaiveTime__sub', U, requires="twf(self), twf(rhs)", ensures="td_inv(r), td_ns(r) == jpos(self, rhs) - jpos(rhs, self)")
 c('FixedOffset::local_minus_utc', 'verus:time', ensures="r == self.local_minus_utc")
 c('FixedOffset::utc_minus_local', 'verus:time', requires="offwf(*self)", ensures="r == -self.local_minus_utc")
@@ -209,6 +222,10 @@ c('NaiveDateTime::Add__add', U, requires="dtwf(self), td_inv(rhs), (add_model(se
   ensures="dt_add_post(self, td_ns(rhs), Some(r))")
 c('NaiveDateTime::Sub__sub', U, requires="dtwf(self), td_inv(rhs), (add_model(self.time, -td_ns(rhs)).0 || DN_MIN() * DAYNS() <= dn(self.date) * DAYNS() + add_model(self.time, -td_ns(rhs)).1 < (DN_MAX() + 1) * DAYNS())",
   ensures="dt_add_post(self, -td_ns(rhs), Some(r))")
+c('NaiveDateTime::AddAssign__add_assign', U, requires="dtwf(*old(self)), td_inv(rhs), (add_model(old(self).time, td_ns(rhs)).0 || DN_MIN() * DAYNS() <= dn(old(self).date) * DAYNS() + add_model(old(self).time, td_ns(rhs)).1 < (DN_MAX() + 1) * DAYNS())",
+  ensures="dt_add_post(*old(self), td_ns(rhs), Some(*final(self)))")
+c('NaiveDateTime::SubAssign__sub_assign', U, requires="dtwf(*old(self)), td_inv(rhs), (add_model(old(self).time, -td_ns(rhs)).0 || DN_MIN() * DAYNS() <= dn(old(self).date) * DAYNS() + add_model(old(self).time, -td_ns(rhs)).1 < (DN_MAX() + 1) * DAYNS())",
+  ensures="dt_add_post(*old(self), -td_ns(rhs), Some(*final(self)))")
 c('NaiveDateTime::Sub_NaiveDateTime__sub', U, requires="dtwf(self), dtwf(rhs)",
   ensures="td_inv(r), td_ns(r) == (dn(self.date) - dn(rhs.date)) * DAYNS() + jpos(self.time, rhs.time) - jpos(rhs.time, self.time)")
 
@@ -281,6 +298,27 @@ c('duration_round', U, requires=RREQ, ensures=rounding('round'))
 c('NaiveDateTime::DurationRound__duration_trunc', U, requires="dtwf(self), td_inv(duration)", ensures=rounding('trunc').replace('naive', 'self'))
 c('NaiveDateTime::DurationRound__duration_round_up', U, requires="dtwf(self), td_inv(duration)", ensures=rounding('up').replace('naive', 'self'))
 c('NaiveDateTime::DurationRound__duration_round', U, requires="dtwf(self), td_inv(duration)", ensures=rounding('round').replace('naive', 'self'))
+def rounding_z(kind):
+    target = {'trunc': "floor_mult(s, p)", 'up': "ceil_mult(s, p)",
+              'round': "(if ceil_mult(s, p) - s <= s - floor_mult(s, p) { ceil_mult(s, p) } else { floor_mult(s, p) })"}[kind]
+    return ("({ let s = stamp(naive); let p = td_ns(duration);"
+            " ((p <= 0 || p > i64::MAX) ==> r == Err::<DateTime<Tz>, RoundingError>(RoundingError::DurationExceedsLimit))"
+            " && ((0 < p <= i64::MAX && !(i64::MIN <= s <= i64::MAX)) ==> r == Err::<DateTime<Tz>, RoundingError>(RoundingError::TimestampExceedsLimit))"
+            " && ((0 < p <= i64::MAX && i64::MIN <= s <= i64::MAX) ==> r is Ok)"
+            # the instant moves by exactly the distance between the wall-clock stamp and its rounded value
+            " && ((r is Ok && nonleap(naive.time)) ==> dtwf((r->Ok_0).datetime) && nonleap((r->Ok_0).datetime.time) && stamp((r->Ok_0).datetime) - stamp(original.datetime) == %s - s) })") % target
+# T := DateTime<Tz>: `naive` is the wall-clock reading of `original` (same sub-second field, less than a day apart)
+RREQ_Z = "dtwf(naive), dtwf(original.datetime), td_inv(duration), naive.time.frac == original.datetime.time.frac, -86400 < wall_off(original.datetime, naive) < 86400"
+c('duration_trunc_zoned', U, requires=RREQ_Z, ensures=rounding_z('trunc'))
+c('duration_round_up_zoned', U, requires=RREQ_Z, ensures=rounding_z('up'))
+c('duration_round_zoned', U, requires=RREQ_Z, ensures=rounding_z('round'))
+def rounding_dt(kind):
+    # DurationRound for DateTime<Tz>: stated on the wall-clock stamp = utc stamp + offset; proved for wall-clock readings inside the nominal range
+    return rounding_z(kind).replace("let s = stamp(naive);", "let s = stamp(self.datetime) + (self.offset.fix_spec().local_minus_utc as int) * 1_000_000_000;").replace("nonleap(naive.time)", "nonleap(self.datetime.time)").replace("stamp(original.datetime)", "stamp(self.datetime)")
+RREQ_DT = "dtwf(self.datetime), td_inv(duration), DN_MIN() * 86400 <= dn(self.datetime.date) * 86400 + self.datetime.time.secs as int + (self.offset.fix_spec().local_minus_utc as int) < (DN_MAX() + 1) * 86400"
+c('DateTime::DurationRound__duration_trunc', U, requires=RREQ_DT, ensures=rounding_dt('trunc'))
+c('DateTime::DurationRound__duration_round_up', U, requires=RREQ_DT, ensures=rounding_dt('up'))
+c('DateTime::DurationRound__duration_round', U, requires=RREQ_DT, ensures=rounding_dt('round'))
 c('span_for_digits', U, ensures="r as int == pow10(if digits >= 9 { 0 } else { 9 - digits as int }), 1 <= r <= 1_000_000_000")
 SUBREQ = "dtwf(self), nonleap(self.time), DN_MIN() < dn(self.date) < DN_MAX()"
 c('NaiveDateTime::SubsecRound__trunc_subsecs', U, requires=SUBREQ,
@@ -359,6 +397,18 @@ c('DateTime::checked_add_signed', U, requires="dtwf(self.datetime), td_inv(rhs)"
   ensures="dt_add_post(self.datetime, td_ns(rhs), match r { Some(d) => Some(d.datetime), None => None })")
 c('DateTime::checked_sub_signed', U, requires="dtwf(self.datetime), td_inv(rhs)",
   ensures="dt_add_post(self.datetime, -td_ns(rhs), match r { Some(d) => Some(d.datetime), None => None })")
+ZADD = "(add_model(self.datetime.time, %s).0 || DN_MIN() * DAYNS() <= dn(self.datetime.date) * DAYNS() + add_model(self.datetime.time, %s).1 < (DN_MAX() + 1) * DAYNS())"
+# operator forms on DateTime<Tz> (generic): documented to panic when the result is not representable = the precondition
+c('DateTime::Add__add', U, requires="dtwf(self.datetime), td_inv(rhs), " + ZADD % ("td_ns(rhs)", "td_ns(rhs)"), ensures="dt_add_post(self.datetime, td_ns(rhs), Some(r.datetime))")
+c('DateTime::Sub__sub', U, requires="dtwf(self.datetime), td_inv(rhs), " + ZADD % ("-td_ns(rhs)", "-td_ns(rhs)"), ensures="dt_add_post(self.datetime, -td_ns(rhs), Some(r.datetime))")
+SDS = "td_inv(r), td_ns(r) == (dn(self.datetime.date) - dn(rhs.datetime.date)) * DAYNS() + jpos(self.datetime.time, rhs.datetime.time) - jpos(rhs.datetime.time, self.datetime.time)"
+c('DateTime::signed_duration_since', U, requires="dtwf(self.datetime), dtwf(rhs.datetime)", ensures=SDS)      # same instants whatever the two zones
+c('DateTime::Sub_DateTime__sub', U, requires="dtwf(self.datetime), dtwf(rhs.datetime)", ensures=SDS)
+c('DateTime::AddAssign__add_assign', U, requires="dtwf(old(self).datetime), td_inv(rhs), " + (ZADD % ("td_ns(rhs)", "td_ns(rhs)")).replace("self.", "old(self)."), ensures="dt_add_post(old(self).datetime, td_ns(rhs), Some(final(self).datetime))")
+c('DateTime::SubAssign__sub_assign', U, requires="dtwf(old(self).datetime), td_inv(rhs), " + (ZADD % ("-td_ns(rhs)", "-td_ns(rhs)")).replace("self.", "old(self)."), ensures="dt_add_post(old(self).datetime, -td_ns(rhs), Some(final(self).datetime))")
+# wall-clock reading with one day of headroom: utc + offset exactly (offset = the FixedOffset the stored Tz::Offset denotes)
+c('DateTime::overflowing_naive_local', U, requires="dtwf(self.datetime)",
+  ensures="shifted(self.datetime, self.offset.fix_spec().local_minus_utc as int, r), offwf(self.offset.fix_spec()), DN_MIN() - 1 <= dn(r.date) <= DN_MAX() + 1, (DN_MIN() <= dn(r.date) <= DN_MAX()) ==> dwf(r.date)")
 U = 'verus:tz'
 c('TimeZoneName::new', U,
   ensures="r is Ok <==> (3 <= input@.len() <= 7 && forall|i: int| 0 <= i < input@.len() ==> tzname_char(#[trigger] input@[i])), "
